@@ -7,11 +7,73 @@ package minibus
 //@ property C11 C10 C03
 //@ type Bus
 //@   guarded_by listenerM: listeners
+//@   lockinv listenerM: forall j int :: 0 <= j && j < len(recv.listeners) ==> recv.listeners[j] != nil && !isnil(recv.listeners[j].ctx)
 //@ type listener
 //@   guarded_by m: ch
 //@   lockinv m: recv.ch == nil || !chanClosed(recv.ch)
 //@
-//@ // delivery to listeners is verified on Bus.Send itself (C03/C10); callers see it as an event that writes no heap
-//@ func (*Bus).Send(ctx, event) (ok)
-//@   trusted
+//@ // ---- one listener: an event is put on the channel at most once, only while the channel is open (the read lock keeps
+//@ // stop from closing it in between), and the verdict says whether it was (C10, C03) ----
+//@ property C10 C03 C11
+//@ func (*listener).send(ctx, event) (ok, active)
+//@   mode BOTH
+//@   requires recv != nil && !held(recv.m) && !isnil(ctx) && !isnil(recv.ctx)
+//@   requires [SEQ] recv.ch == nil || !chanClosed(recv.ch)
+//@   ensures [delivered] ok && active ==> recv.ch != nil && chanSent(recv.ch) == old(chanSent(recv.ch)) + 1 && chanSentAt(recv.ch, old(chanSent(recv.ch))) == event
+//@   ensures [not-delivered] !(ok && active) ==> recv.ch == nil || chanSent(recv.ch) == old(chanSent(recv.ch))
+//@   ensures [unchanged] recv.ch == old(recv.ch) && !held(recv.m)
+//@   ensures [INT] [delivered-int] ok && active ==> recv.ch != nil && !chanClosed(recv.ch)
+//@   ensures [INT] [unlocked] !held(recv.m)
 //@   modifies nothing
+//@
+//@ // stop closes the channel exactly once and forgets it, so that no later send can reach it
+//@ func (*listener).stop()
+//@   mode BOTH
+//@   requires recv != nil && !held(recv.m)
+//@   requires [SEQ] recv.ch == nil || !chanClosed(recv.ch)
+//@   ensures [closed] old(recv.ch) != nil ==> chanClosed(old(recv.ch))
+//@   ensures [forgotten] recv.ch == nil && !held(recv.m)
+//@   ensures [INT] [forgotten-int] recv.ch == nil && !held(recv.m)
+//@
+//@ // ---- the bus: Send offers the event to every listener registered at the moment of its snapshot, once each, in
+//@ // registration order, and stops at the first one that reports the sender's context as done ----
+//@ // Listen registers a new listener, with an open channel, as the last one, under the write lock
+//@ func (*Bus).Listen(ctx) (ch)
+//@   mode INT
+//@   requires recv != nil && !held(recv.listenerM) && !isnil(ctx)
+//@   ensures [registered] len(recv.listeners) >= 1 && recv.listeners[len(recv.listeners)-1] != nil && recv.listeners[len(recv.listeners)-1].ch == ch &&
+//@   |   recv.listeners[len(recv.listeners)-1].ctx == ctx && ch != nil && !chanClosed(ch) && fresh(recv.listeners[len(recv.listeners)-1])
+//@   ensures [unlocked] !held(recv.listenerM)
+//@
+//@ // garbage collection keeps, in order, listeners that were registered when the write lock was taken (never a stale copy:
+//@ // a listener registered while a Send was in flight must survive it)
+//@ func (*Bus).collect()
+//@   mode INT
+//@   requires recv != nil && !held(recv.listenerM)
+//@   ensures [from-current] forall j int :: 0 <= j && j < len(recv.listeners) ==> recv.listeners[j] != nil && !isnil(recv.listeners[j].ctx)
+//@   ensures [unlocked] !held(recv.listenerM)
+//@   modifies Bus.listeners
+//@   loop 0 (k):
+//@     invariant 0 <= k && k <= len(recv.listeners) && heldW(recv.listenerM) && (isnil(activeListeners) || fresh(activeListeners)) && len(activeListeners) <= k
+//@     invariant forall j int :: 0 <= j && j < len(recv.listeners) ==> recv.listeners[j] != nil && !isnil(recv.listeners[j].ctx)
+//@     invariant forall j int :: 0 <= j && j < len(activeListeners) ==> (exists i int :: 0 <= i && i < k && activeListeners[j] == recv.listeners[i])
+//@
+//@ func (*Bus).Send(ctx, event) (ok)
+//@   mode INT
+//@   requires recv != nil && !held(recv.listenerM) && !isnil(ctx) && (forall l *listener :: !held(l.m))
+//@   track send
+//@   // the snapshot is taken under the read lock; every listener in it is offered the event once, in registration order
+//@   ensures [all-offered] ok ==> calls(send) == old(calls(send)) + len(listeners)
+//@   ensures [at-most-all] calls(send) <= old(calls(send)) + len(listeners)
+//@   ensures [unlocked] !held(recv.listenerM)
+//@   modifies Bus.listeners
+//@   loop 0 (k):
+//@     invariant 0 <= k && k <= len(recv.listeners) && len(listeners) == k && held(recv.listenerM) && calls(send) == old(calls(send)) && (isnil(listeners) || fresh(listeners))
+//@     invariant forall j int :: 0 <= j && j < len(recv.listeners) ==> recv.listeners[j] != nil && !isnil(recv.listeners[j].ctx)
+//@     invariant forall j int :: 0 <= j && j < k ==> listeners[j] == recv.listeners[j] && listeners[j] != nil && !isnil(listeners[j].ctx)
+//@     invariant forall l *listener :: !held(l.m)
+//@   loop 1 (k):
+//@     invariant 0 <= k && k <= len(listeners) && calls(send) == old(calls(send)) + k && !held(recv.listenerM)
+//@     invariant forall j int :: 0 <= j && j < len(listeners) ==> listeners[j] != nil && !isnil(listeners[j].ctx)
+//@     invariant forall l *listener :: !held(l.m)
+//@
